@@ -102,6 +102,14 @@ theorem hook_sees_while_installed (cfg : Cfg) (st : St) (hal : st.alive = true) 
   · intro why
     cases hh : st.hookInv <;> cases ho : cfg.optCb <;> simp [step, hal, hh, ho, hookLog]
 
+/-- **redis6_every_embedded_push_dispatched.** On a Redis 6 connection (`p.version == 6`) a reply that
+    carries invalidation pushes embedded between its elements — any number of them — hands EVERY one
+    of them to the callback, in order, like top-level pushes. -/
+theorem redis6_every_embedded_push_dispatched (st : St) (hal : st.alive = true) (nested : List (List PV)) :
+    optLog (step ⟨true, true⟩ st (.frame (.reply nested))).2 = nested.filterMap invArg := by
+  simp only [step, hal, if_true, frameInvs]
+  exact optLog_pushCalls ⟨true, true⟩ st rfl nested
+
 /-- **both_callbacks_see_every_push.** On a wire that carries BOTH the client-wide OnInvalidations
     callback and a dedicated client's SetOnInvalidations hook (pool wires inherit the option), every
     invalidation push reaches both, with the same argument, option-level callback first; and over a
